@@ -11,8 +11,10 @@ indices; `map` yields `f xs[0], f xs[1], …` up to the first failing item and t
                      ever sits in lane `k % n`, lanes are in order, and the value waiting in `out[j]` is the next
                      one the consumer expects from lane `j`;
 * `mp_result`      — in every terminal state the output is `0 … read-1`, none of them failing; without an error
-                     `read = N` (everything `map` yields); with an error it is the error of a failing item (so the
-                     output is a prefix of `map`'s, which stops at the first failing item);
+                     `read = N` (everything `map` yields) and the source did not fail; with an error it is the error
+                     of a failing item or — when the SOURCE iterator fails after `N` items, in either style,
+                     `(false, err)` or `(true, err)` — the source's error, and `read ≤` that position (so the
+                     output is a prefix of `map`'s, which stops at the first failure);
 * `mp_err_before_close` — a consumer can only find an `out[i]` closed after `m.err` has been assigned, and what it
                      then reads is the group's error (the ORDER `m.err = g.Wait()` … `close(out[i])` is an obligation;
                      `mp_swapped_counterexample`: with the two statements exchanged a run ends with (false, nil)
@@ -35,7 +37,8 @@ theorem mp_invariant (c : Cfg) (hn : 0 < c.n) (s : St) (h : Reachable (step c) (
 theorem mp_result (c : Cfg) (hn : 0 < c.n) (s : St) (h : Reachable (step c) (init c) s)
     (r : Option Nat) (hr : s.fin = some r) :
     s.out = List.range s.read ∧ (∀ k, k < s.read → c.fails k = false) ∧ s.read ≤ c.N ∧
-    (r = none → s.read = c.N) ∧ (∀ e, r = some e → c.fails e = true ∧ e < c.N ∧ s.read ≤ e) := by
+    (r = none → s.read = c.N ∧ c.srcFails = false) ∧
+    (∀ e, r = some e → ((c.fails e = true ∧ e < c.N) ∨ (c.srcFails = true ∧ e = c.N)) ∧ s.read ≤ e) := by
   have I := inv_reachable hn h
   obtain ⟨hrg, hoc, hq⟩ := I.finI r hr
   obtain ⟨hde, hall, _⟩ := I.closer (I.closed hoc)
@@ -44,6 +47,10 @@ theorem mp_result (c : Cfg) (hn : 0 < c.n) (s : St) (h : Reachable (step c) (ini
     intro hrn
     have hg : s.gerr = none := by rw [← hrg, hrn]
     have hw : s.write = c.N := I.dispF (by rw [hde]; simp) hg
+    refine ⟨?_, by
+      cases hsf : c.srcFails with
+      | false => rfl
+      | true => exact absurd hg (I.srcI hde hsf)⟩
     rcases Nat.lt_or_ge s.read s.write with hlt | hge
     · exfalso
       have hlen : s.read % c.n < s.lanes.length := by rw [I.len]; exact Nat.mod_lt _ hn
@@ -57,11 +64,12 @@ theorem mp_result (c : Cfg) (hn : 0 < c.n) (s : St) (h : Reachable (step c) (ini
     · have := I.rle; omega
   · intro e he
     have hg : s.gerr = some e := by rw [← hrg, he]
-    obtain ⟨h1, h2⟩ := I.gerrI e hg
-    refine ⟨h1, h2, ?_⟩
-    rcases Nat.lt_or_ge e s.read with hlt | hge
-    · have := I.okout e hlt; rw [h1] at this; cases this
-    · exact hge
+    refine ⟨I.gerrI e hg, ?_⟩
+    rcases I.gerrI e hg with ⟨h1, _⟩ | ⟨_, h2⟩
+    · rcases Nat.lt_or_ge e s.read with hlt | hge
+      · have := I.okout e hlt; rw [h1] at this; cases this
+      · exact hge
+    · have := I.rle; have := I.wle; omega
 
 /-- The consumer can observe a closed `out[i]` only after `m.err` has been recorded: whenever the `out` channels
 are closed, `m.err = g.Wait()` has been executed, every goroutine of the group has returned, and `m.err` holds the
@@ -81,7 +89,7 @@ theorem mp_fin_is_group_error (c : Cfg) (hn : 0 < c.n) (s : St) (h : Reachable (
 `MapParallel.stepSwapped`): 2 cores, 1 item, `f` fails on it — the consumer, woken by the close of `out[0]`, reads
 `m.err` before it is assigned and reports success: `Next()` = (false, nil) although the group's error is set. -/
 theorem mp_swapped_counterexample :
-    ∃ s, Reachable (stepSwapped ⟨2, 1, fun _ => true⟩) (init ⟨2, 1, fun _ => true⟩) s ∧
+    ∃ s, Reachable (stepSwapped ⟨2, 1, fun _ => true, false⟩) (init ⟨2, 1, fun _ => true, false⟩) s ∧
       s.gerr = some 0 ∧ s.fin = some none ∧ s.out = [] :=
   ⟨_, Reachable.of_runSched [0, 0, 0, 0, 0, 0, 0, 0, 1] _ _ .refl rfl, by decide⟩
 
@@ -254,13 +262,17 @@ theorem mp_result_spec (n : Nat) (hn : 0 < n) (f : α → Except ε β) (xs : Li
   have hvals : outVals f xs s = (mapSeq f xs).1.take s.read := by rw [outVals, hout]; exact htake.1
   constructor
   · intro hrn
-    have hN : s.read = xs.length := hnone hrn
+    have hN : s.read = xs.length := (hnone hrn).1
     have hlen := length_le f xs
     refine ⟨?_, ?_⟩
     · rw [hvals, List.take_of_length_le (by omega)]
     · exact no_error f xs (by intro k hk; exact hok k (by omega))
   · intro e he
-    obtain ⟨hbad, heN, _⟩ := hsome e he
+    obtain ⟨hcase, _⟩ := hsome e he
+    have hbad : (cfgOf n f xs).fails e = true := by
+      rcases hcase with ⟨h1, _⟩ | ⟨h1, _⟩
+      · exact h1
+      · cases h1
     refine ⟨by rw [hvals]; exact List.take_prefix _ _, has_error f xs e hbad, ?_⟩
     simp only [cfgOf, bad] at hbad
     split at hbad
@@ -282,6 +294,11 @@ example : ∃ s, Reachable (step exCfg) (init exCfg) s ∧ s.fin = some (some 1)
 def exCfg2 : Cfg := { n := 3, N := 4, fails := fun _ => false }
 example : ∃ s, Reachable (step exCfg2) (init exCfg2) s ∧ s.fin = some none ∧ s.out = [0, 1, 2, 3] :=
   ⟨_, Reachable.of_runSched (List.replicate 28 0) _ _ .refl rfl, by decide⟩
+/-- … and a source that yields 2 items and then fails (2 cores, `f` never fails): both values arrive, then the
+source's error (written as the index `N = 2`) -/
+def exCfgSrc : Cfg := { n := 2, N := 2, fails := fun _ => false, srcFails := true }
+example : ∃ s, Reachable (step exCfgSrc) (init exCfgSrc) s ∧ s.fin = some (some 2) ∧ s.out = [0, 1] :=
+  ⟨_, Reachable.of_runSched (List.replicate 17 0) _ _ .refl rfl, by decide⟩
 example : terminal (init exCfg) = false ∧ 0 < exCfg.n := by decide
 
 end B6.Props.C25
